@@ -885,7 +885,7 @@ impl DhcpService {
             reply = match handle_pkt(
                 &mut pool,
                 &request,
-                get_serverids(&self.serverids).await,
+                self.own_serverids().await,
                 &lockedconf,
             ) {
                 Err(e) => {
@@ -996,6 +996,18 @@ impl DhcpService {
             log::warn!("{}: Failed to send reply: {:?}", format_client(&reply), e);
             DHCP_ERRORS.with_label_values(&["SEND_ERROR"]).inc();
         }
+    }
+
+    /// The identifiers a REQUEST may name and still be for this server: the ones it has already used in replies
+    /// (remembered only in memory, so gone after a restart) and every IPv4 address of this host.
+    async fn own_serverids(&self) -> ServerIds {
+        let mut ids = get_serverids(&self.serverids).await;
+        for (addr, _prefixlen) in self.netinfo.get_if_prefixes().await {
+            if let net::IpAddr::V4(ip4) = addr {
+                ids.insert(ip4);
+            }
+        }
+        ids
     }
 
     async fn new_internal(
